@@ -725,8 +725,8 @@ def correspond(ctx):
                       dict(error=STATE["extract_error"]), concrete=False)
     n_doc = doc_minor()
     r = ctx.rng("dirs")
-    ndirs = 320 if ctx.quick else int(os.environ.get("C18_THOROUGH_DIRS", "6000"))      # override: smoke-test the tier on a loaded machine
-    nprog = 8 if ctx.quick else int(os.environ.get("C18_THOROUGH_PROGS", "100"))
+    ndirs = 320 if ctx.quick else int(os.environ.get("C18_THOROUGH_DIRS", "3000"))      # override: smoke-test the tier on a loaded machine
+    nprog = 8 if ctx.quick else int(os.environ.get("C18_THOROUGH_PROGS", "50"))
     cdirs, cprogs = corpus()
     cases = cdirs + [gen_case(r, i) for i in range(ndirs)]
     syst = gen_systematic(ndirs + 100000, ctx.quick)
